@@ -360,7 +360,6 @@ class _UseChecker:
     An object that can check whether it was used.
     """
 
-    used: bool = False
     name: str
     source: str
     lineno: int
@@ -369,7 +368,30 @@ class _UseChecker:
         self.name = name
         self.source = source # generally an Import
         self.lineno = lineno
+        self._used = False
+        # Unused imports of the same name that this binding may or may not
+        # have replaced (it was made in a statement whose body may not run):
+        # a later read of the name can see any of them.
+        self.shadowed: Tuple["_UseChecker", ...] = ()
         logger.debug("Create _UseChecker : %r", self)
+
+    @property
+    def used(self) -> bool:
+        return self._used
+
+    @used.setter
+    def used(self, value: bool) -> None:
+        self._used = value
+        if value:
+            for checker in self.shadowed:
+                checker.used = True
+
+    def unused_shadowed(self):
+        """
+        The conditionally replaced imports (see ``shadowed``) that nothing
+        has read.
+        """
+        return [checker for checker in self.shadowed if not checker.used]
 
     def __repr__(self):
         return f"<{type(self).__name__}: name:{self.name!r} source:{self.source!r} lineno:{self.lineno} used:{self.used}>"
@@ -607,7 +629,13 @@ class _MissingImportFinder:
         finally:
             logger.debug("throwing last scope from scopestack: %r", new_scopestack[-1])
             for name, use_checker in new_scopestack[-1].items():
-                if (use_checker and use_checker.used == False and check_unused_imports
+                if not (use_checker and check_unused_imports):
+                    continue
+                if use_checker.name == name:
+                    for checker in use_checker.unused_shadowed():
+                        self.unused_imports.append(
+                            (checker.lineno, checker.source))
+                if (use_checker.used == False
                     and use_checker.name == name):
                     logger.debug(
                         "unused checker %r scopestack_depth %r",
@@ -862,20 +890,19 @@ class _MissingImportFinder:
         assert node._fields == ('type', 'name', 'body')
         if node.type:
             self.visit(node.type)
-        scope = self.scopestack[-1]
-        missing = object()
-        previous = scope.get(node.name, missing) if node.name else missing
         if node.name:
             self._visit_Store(node.name)
         self.visit(node.body)
         if node.name:
             # Python unbinds the name at the end of the handler
-            # (``except E as e: ...`` ends with an implicit ``del e``); but
-            # the handler may not run at all, and then the previous binding
-            # is still there.
-            scope.pop(node.name, None)
-            if previous is not missing:
-                scope[node.name] = previous
+            # (``except E as e: ...`` ends with an implicit ``del e``).
+            value = self.scopestack[-1].pop(node.name, None)
+            if isinstance(value, _UseChecker):
+                # The handler may not run at all, and then an import that
+                # bound the name before is still what a later read sees:
+                # do not report it as unused.
+                for checker in value.shadowed:
+                    checker.used = True
 
     def visit_AugAssign(self, node) -> None:
         # ``x += v`` reads ``x`` before it stores it.  The generic visitor
@@ -1149,12 +1176,23 @@ class _MissingImportFinder:
             # If we're redefining something, and it has not been used, then
             # record it as unused.
             oldvalue = scope.get(fullname)
-            if (isinstance(oldvalue, _UseChecker) and not oldvalue.used
-                and oldvalue.name == fullname
-                and not self._conditional_depth
-                and fullname.split(".")[0] not in self._deferred_names):
-                logger.debug("Adding to unused %s", oldvalue)
-                self.unused_imports.append((oldvalue.lineno, oldvalue.source))
+            if isinstance(oldvalue, _UseChecker):
+                pending = oldvalue.unused_shadowed()
+                if not oldvalue.used and oldvalue.name == fullname:
+                    pending.append(oldvalue)
+                if (self._conditional_depth
+                    or fullname.split(".")[0] in self._deferred_names):
+                    # The old binding may still be the one that a later read
+                    # sees: whatever is stored now stands for both.
+                    if pending:
+                        if value is None:
+                            value = _UseChecker(None, None, self._lineno)
+                        value.shadowed = tuple(pending) + value.shadowed
+                else:
+                    for checker in pending:
+                        logger.debug("Adding to unused %s", checker)
+                        self.unused_imports.append(
+                            (checker.lineno, checker.source))
         scope[fullname] = value
 
     def _remove_from_missing_imports(self, fullname):
@@ -1312,7 +1350,10 @@ class _MissingImportFinder:
         for name, value in scope.items():
             if not isinstance(value, _UseChecker):
                 continue
-            if value.used:
+            if value.name == name or value.name is None:
+                for checker in value.unused_shadowed():
+                    unused_imports.append((checker.lineno, checker.source))
+            if value.used or value.name is None:
                 continue
             if value.name != name:
                 # A leading prefix of a dotted import; the import is listed
